@@ -107,8 +107,86 @@ WORLDW = {"graph": {"nodes": list(reversed(copy.deepcopy(WORLDX["graph"]["nodes"
 WORLDE = {"graph": {"nodes": copy.deepcopy(WORLD0["graph"]["nodes"]) + [["n:tiny", "tiny"], ["n:dust", "dust"]],
                     "edges": copy.deepcopy(WORLD0["graph"]["edges"]) + [["e:t", "n:tiny", "n:dust", 0.0000017, "supports"]]},
           "episodes": copy.deepcopy(WORLD0["episodes"])}
-ALL_WORLDS = [WORLD0, WORLD1, WORLD2, WORLDX, WORLDY, WORLDZ, WORLDW, WORLDE]
-W_EPS = 7
+# WORLDQ: near-duplicate episodes (MMR / lexical fusion reorder the head); WORLDH: the same + GEL edges (hybrid)
+_QDOCS = [("e1", "apple pie recipe with cinnamon"), ("e2", "apple pie recipe with cinnamon sugar"),
+          ("e3", "apple pie recipe with nutmeg"), ("e4", "apple orchard harvest festival zebra"),
+          ("e5", "apple cider vinegar tonic"), ("e6", "pie crust butter flour"), ("e7", "Apples pies recipes baking"),
+          ("e8", "pie pie pie pie apple"),
+          ("e9", "the recipe of the apple and the pie is the long one with many many other words in the text of it"),
+          ("e10", "Apple-Pie RECIPES"), ("e11", "recipe")]
+WORLDQ = {"graph": {"nodes": [["n:zebra", "zebra"], ["n:cider", "cider"], ["n:apple", "apple"]], "edges": []},
+          "episodes": [{"id": i, "text": t, "owner": "A", "ts": "2025-08-28T00:00:00Z", "aux": {"importance": 0.5}}
+                       for i, t in _QDOCS]}
+WORLDH = dict(copy.deepcopy(WORLDQ), gel_pairs=[["e1", "e4", 0.9], ["e2", "e5", 0.8], ["e4", "e6", 0.7]])
+ALL_WORLDS = [WORLD0, WORLD1, WORLD2, WORLDX, WORLDY, WORLDZ, WORLDW, WORLDE, WORLDQ, WORLDH]
+W_EPS, W_Q, W_H = 7, 8, 9
+
+# configuration profiles with the gates ON (merged over BASE_CFG)
+PROFILES: Dict[str, Any] = {
+    # lambda = 1.0: the MMR head size `k` re-orders the head on the near-duplicate corpus; lexical weight 0.7
+    "quality": {"t2": {"k_retrieval": 10, "quality": {
+        "enabled": True, "lexical": {"bm25_k1": 1.2, "bm25_b": 0.75, "stopwords": "en-basic"},
+        "fusion": {"mode": "score_interp", "alpha_semantic": 0.3}, "mmr": {"enabled": True, "lambda": 1.0}}}},
+    "hybrid": {"t2": {"k_retrieval": 7, "hybrid": {"enabled": True, "use_graph": True, "anchor_top_m": 3, "walk_hops": 1,
+                                                   "edge_threshold": 0.1, "lambda_graph": 0.5, "damping": 0.5,
+                                                   "degree_norm": "none", "max_bonus": 0.5, "k_max": 128}}},
+    "perf": {},
+}
+Q_TEXT = "apple pie recipe"
+
+# alternative values per leaf (suffix match on the dotted path); leaves without a hint get GENERIC_VALUES, so a knob
+# the validator starts to allow is swept without touching this file
+LEAF_HINTS: Dict[str, list] = {
+    "t2.quality.enabled": [False], "t2.quality.shadow": [True], "t2.quality.redact": [False],
+    "lexical.enabled": [False], "lexical.bm25_k1": [0.1, 3.0], "lexical.bm25_b": [0.0, 1.0], "lexical.stopwords": ["none"],
+    "bm25.k1": [0.1], "bm25.b": [0.0], "bm25.doclen_floor": [5],
+    "fusion.enabled": [False], "fusion.mode": ["rank"], "fusion.alpha_semantic": [0.0, 0.6, 1.0], "fusion.score_norm": ["minmax"],
+    "mmr.enabled": [False], "mmr.lambda": [0.0, 0.5], "mmr.k": [1, 2, 3], "mmr.k_final": [1, 2], "mmr.lambda_relevance": [0.1],
+    "mmr.diversity_by_owner": [True], "mmr.diversity_by_token": [False],
+    "normalizer.enabled": [False], "normalizer.case": ["none"], "normalizer.stemmer": ["porter-lite"],
+    "normalizer.min_token_len": [5], "normalizer.stopwords": ["none"], "normalizer.unicode": ["NFKC"],
+    "aliasing.enabled": [True], "aliasing.map_path": ["/nonexistent/aliases.json"], "aliasing.max_expansions_per_token": [0],
+    "quality.cache.salt": ["pepper"],
+    "hybrid.enabled": [False], "hybrid.use_graph": [False], "hybrid.anchor_top_m": [1], "hybrid.walk_hops": [2],
+    "hybrid.edge_threshold": [0.95], "hybrid.lambda_graph": [0.0, 1.0], "hybrid.damping": [0.0],
+    "hybrid.degree_norm": ["invdeg"], "hybrid.max_bonus": [0.0], "hybrid.k_max": [1],
+    "ranking.alpha_sim": [0.0], "ranking.beta_recency": [1.0], "ranking.gamma_importance": [1.0],
+    "t1.iter_cap": [0, 1], "t1.radius_cap": [0], "t1.queue_budget": [1], "t1.node_budget": [0.5],
+    "caps.frontier": [2], "caps.visited": [1], "perf.t1.dedupe_window": [1], "perf.t1.queue_cap": [1],
+}
+GENERIC_VALUES = [1, True, "x"]
+LEAF_SKIP = {"t2.quality.trace_dir", "t1.cache", "perf.t1.cache", "t1.decay", "t1.edge_type_mult"}   # paths / cache switches / dict-valued (CFG_DIMS)
+LEAF_ROOTS = {"t2.quality": "ALLOWED_T2_QUALITY", "t2.hybrid": "ALLOWED_T2_HYBRID", "t2.ranking": "ALLOWED_RANKING_FIELDS",
+              "t1": "ALLOWED_T1", "perf.t1": "ALLOWED_PERF_T1"}
+
+
+def config_leaves() -> List[Tuple[str, list]]:
+    """Every leaf the validator allows under t2.quality.*, t2.hybrid.*, t2.ranking.*, t1.* and perf.t1.* — derived from
+    the ALLOWED_* key sets of `configs/validate.py` of the tree under test (nested sets are found by name)."""
+    import importlib
+    from harness import core as _core  # noqa: F401  (puts $CLEMATIS3_REPO on sys.path)
+    V = importlib.import_module("configs.validate")
+    out: List[Tuple[str, list]] = []
+
+    def walk(prefix: str, setname: str, root: str):
+        for k in sorted(getattr(V, setname, set()) or []):
+            path = f"{prefix}.{k}"
+            if path in LEAF_SKIP:
+                continue
+            nested = [n for n in (f"{setname}_{k.upper()}", f"{root}_{k.upper()}") if isinstance(getattr(V, n, None), (set, frozenset, list, tuple))]
+            if nested:
+                walk(path, nested[0], root)
+                continue
+            vals = None
+            for suf, v in LEAF_HINTS.items():
+                if path == suf or path.endswith("." + suf):
+                    vals = v
+                    break
+            out.append((path, list(vals if vals is not None else GENERIC_VALUES)))
+
+    for prefix, setname in LEAF_ROOTS.items():
+        walk(prefix, setname, setname)
+    return out
 
 
 def _edge_delta(eid, src, dst, w, rel="supports", with_id=True):
@@ -191,6 +269,15 @@ def _set_path(cfg: dict, path: List[str], val: Any) -> None:
         cur[path[-1]] = copy.deepcopy(val)
 
 
+def _merge(a: dict, b: dict) -> dict:
+    for k, v in (b or {}).items():
+        if isinstance(v, dict) and isinstance(a.get(k), dict):
+            _merge(a[k], v)
+        else:
+            a[k] = copy.deepcopy(v)
+    return a
+
+
 def to_hist_case(case: dict) -> dict:
     """Lower a dimension history to the `c05_hist.run_history` case format."""
     st = default_settings()
@@ -205,6 +292,9 @@ def to_hist_case(case: dict) -> dict:
                 if d == "relax_cap" and st[d] is None:
                     continue
                 _set_path(cfg, path, st[d])
+            for d, v in st.items():
+                if d.startswith("leaf:"):
+                    _set_path(cfg, d[5:].split("."), v)
             sched = {kk: st[d] for d, kk in (("slice_t1_pops", "t1_pops"), ("slice_t1_iters", "t1_iters"),
                                              ("slice_t2_k", "t2_k")) if st[d] is not None}
             ops.append({"op": "turn", "w": op.get("w", 0), "agent": st["agent"], "text": st["text"], "now": st["now"],
@@ -215,7 +305,7 @@ def to_hist_case(case: dict) -> dict:
             ops.append(o)
     worlds = [copy.deepcopy(w) for w in ALL_WORLDS][: case.get("nworlds", 1)]
     return {"mode": case["mode"], "cap": case.get("cap", 512), "ttl": case.get("ttl", 300), "worlds": worlds,
-            "base": copy.deepcopy(BASE_CFG), "ops": ops}
+            "base": _merge(copy.deepcopy(BASE_CFG), PROFILES.get(case.get("profile") or "", {})), "ops": ops}
 
 
 # ------------------------------------------------------------------------------------------------
@@ -240,8 +330,12 @@ def dim_class(cache: str, dim: str) -> str:
     if cache == "turn":
         if dim in T1_CFG or dim in ("slice_t1_pops", "slice_t1_iters") or dim.startswith("edge_"):
             return "t1_labels"           # anything that changes what T1 reaches (the query = text + T1 labels)
-        if dim in T2_CFG:
+        if dim in T2_CFG or dim.startswith("leaf:t2.") or dim == "gel_edge":
             return "config"
+        if dim.startswith("leaf:") or dim in ("edge_rmw", "edge_copy"):
+            return "t1_labels"
+        if dim == "node_rmw":
+            return "node_label"
         if dim in ("node_label", "node_add", "apply_node"):
             return "node_label"
         if dim == "apply_edge":
@@ -250,12 +344,14 @@ def dim_class(cache: str, dim: str) -> str:
             return "memory_add"
     if dim in ("node_add", "apply_node"):
         return "node_label"
+    if cache == "t2" and (dim.startswith("leaf:t2.hybrid.") or dim == "gel_edge"):
+        return "hybrid"          # neither the hybrid configuration nor the GEL graph is part of the T2 key
     return dim
 
 
 # dimension classes recorded as OPEN findings (listed last when a minimal history needs several dimensions, so that a
 # new dimension is never hidden behind a recorded one)
-OPEN_CLASSES = {"t2": ["node_label", "state"],
+OPEN_CLASSES = {"t2": ["node_label", "state", "hybrid"],
                 "turn": ["agent", "t1_labels", "node_label", "config", "memory_add", "now"],
                 "t1": []}
 
@@ -366,6 +462,11 @@ def gen_history(rng: random.Random, i: int) -> dict:
                 ops.append({"op": "set", "dim": o["dim"], "val": copy.deepcopy(vals[0])})
             elif r < 0.68 or (nworlds == 8 and r < 0.8):
                 ops.append(dict(copy.deepcopy(rng.choice(APPLY_EDITS)), w=(W_EPS if nworlds == 8 else rng.randrange(nworlds))))
+            elif r < 0.71:
+                ops.append(rng.choice([
+                    {"op": "edge_rmw", "dim": "edge_rmw", "w": 0, "id": rng.choice(["e1", "e2"]), "wt": rng.choice([0.0, 0.9, 0.3])},
+                    {"op": "node_rmw", "dim": "node_rmw", "w": 0, "id": "n:pear", "label": rng.choice(["apple", "pear", "tart"])},
+                    {"op": "edge_copy", "dim": "edge_copy", "w": 0, "id": "e1"}]))
             elif r < 0.75:
                 ops.append(dict(copy.deepcopy(rng.choice(EDGE_EDITS)), w=rng.randrange(nworlds)))
             elif r < 0.83 and not mode.startswith("t1"):
@@ -383,9 +484,12 @@ def sweep_cases(full: bool = True) -> List[dict]:
     """2-step histories: turn, change ONE dimension, turn (same state) — per cache configuration."""
     out = []
 
-    def hist(mode, change_ops, pre=(), nworlds=1, second_w=0, first_w=0):
+    def hist(mode, change_ops, pre=(), nworlds=1, second_w=0, first_w=0, profile=None):
         ops = list(pre) + [{"op": "turn", "w": first_w}] + list(change_ops) + [{"op": "turn", "w": second_w}]
-        return {"mode": mode, "cap": 512, "ttl": 300, "nworlds": nworlds, "ops": ops, "sweep": True}
+        c = {"mode": mode, "cap": 512, "ttl": 300, "nworlds": nworlds, "ops": ops, "sweep": True}
+        if profile:
+            c["profile"] = profile
+        return c
 
     def changes_for(dim):
         if dim in CFG_DIMS:
@@ -442,6 +546,39 @@ def sweep_cases(full: bool = True) -> List[dict]:
                 out.append(hist(mode, [copy.deepcopy(e)], pre=[{"op": "set", "dim": "agent", "val": ag}]))
     for e in EP_READDS[:2]:
         out.append(hist("turn", [copy.deepcopy(e)], pre=[{"op": "set", "dim": "kill", "val": True}]))
+    # EVERY configuration leaf the validator allows under t2.quality / t2.hybrid / t2.ranking / t1 / perf.t1, one leaf at a
+    # time with the corresponding gate ON, at a constant index version, on a corpus where the leaf matters
+    qtext = [{"op": "set", "dim": "text", "val": Q_TEXT}]
+    perf_on = [{"op": "set", "dim": "text", "val": "fig and apple"},
+               {"op": "set", "dim": "perf_frontier", "val": {"enabled": True, "t1": {"caps": {"frontier": 0}}}}]
+    for path, vals in config_leaves():
+        for v in vals:
+            ch = [{"op": "set", "dim": "leaf:" + path, "val": copy.deepcopy(v)}]
+            if path.startswith("t2.quality."):
+                out.append(hist("t2_lru", ch, pre=qtext, nworlds=W_Q + 1, first_w=W_Q, second_w=W_Q, profile="quality"))
+                if ".mmr." in path:
+                    out.append(hist("t2_bytes", ch, pre=qtext, nworlds=W_Q + 1, first_w=W_Q, second_w=W_Q, profile="quality"))
+            elif path.startswith("t2.hybrid."):
+                out.append(hist("t2_lru", ch, pre=qtext, nworlds=W_H + 1, first_w=W_H, second_w=W_H, profile="hybrid"))
+            elif path.startswith("t2.ranking."):
+                out.append(hist("t2_lru", ch, pre=qtext, nworlds=W_Q + 1, first_w=W_Q, second_w=W_Q))
+            elif path.startswith("perf."):
+                out.append(hist("t1_lru", ch, pre=perf_on))
+            else:
+                out.append(hist("t1_lru", ch))
+    # the quality/hybrid gates themselves, set -> reset (mmr.k None -> 2 -> None), and a GEL edge edit
+    out.append(hist("t2_lru", [{"op": "set", "dim": "leaf:t2.quality.mmr.k", "val": 2}, {"op": "turn", "w": W_Q},
+                               {"op": "set", "dim": "leaf:t2.quality.mmr.k", "val": 1}],
+                    pre=qtext, nworlds=W_Q + 1, first_w=W_Q, second_w=W_Q, profile="quality"))
+    out.append(hist("t2_lru", [{"op": "gel", "dim": "gel_edge", "w": W_H, "a": "e3", "b": "e6", "wt": 0.9}],
+                    pre=qtext, nworlds=W_H + 1, first_w=W_H, second_w=W_H, profile="hybrid"))
+    # read-modify-write edits (mutate the stored object, upsert the same object) and the equal-fresh-copy control
+    for mode in ("t1_lru", "t1_bytes", "t2_lru"):
+        out.append(hist(mode, [{"op": "edge_rmw", "dim": "edge_rmw", "w": 0, "id": "e1", "wt": 0.0}]))
+        out.append(hist(mode, [{"op": "node_rmw", "dim": "node_rmw", "w": 0, "id": "n:pear", "label": "apple"}]))
+        out.append(hist(mode, [{"op": "edge_copy", "dim": "edge_copy", "w": 0, "id": "e1"}]))
+        out.append(hist(mode, [{"op": "edge_rmw", "dim": "edge_rmw", "w": 0, "id": "e1", "wt": 0.0},
+                               {"op": "edge_copy", "dim": "edge_copy", "w": 0, "id": "e1"}]))
     t2_dims = sorted(T2_CFG) + ["agent", "now", "slice_t2_k", "text"]
     for mode in ("t2_lru", "t2_bytes"):
         for d in t2_dims + ["decay_rate", "slice_t1_pops"]:
